@@ -203,8 +203,10 @@ fn rec_const(d: &mut Draw) -> Shape {
     ];
     let v = d.below_usize(ITEMS.len());
     let item = ITEMS[v];
-    let text = match d.weighted(&[4, 2, 2, 1]) {
-        0 => format!("package P {{\n    const A: u32 = P::A;\n}}\nmodule M {{\n    {item}\n}}\n"),
+    let w = d.weighted(&[4, 2, 2, 1, 1]);
+    let text = match w {
+        0 => format!("module M {{\n    {item}\n}}\n"),
+        4 => format!("package P {{\n    const A: u32 = P::A;\n}}\nmodule M {{\n    {item}\n}}\n"),
         1 => format!("package P {{\n    {item}\n}}\nmodule M {{\n    import P::*;\n    let _x: u32 = A;\n}}\n"),
         2 => {
             // self-referential parameter defaults
@@ -220,7 +222,7 @@ fn rec_const(d: &mut Draw) -> Shape {
         }
         _ => format!("package P::<T: u32> {{\n    const A: u32 = P::<T>::A;\n}}\nmodule M {{\n    const B: u32 = P::<1>::A;\n    {item}\n}}\n"),
     };
-    Shape::new("rec_const", v, text)
+    Shape::new("rec_const", v * 8 + w, text)
 }
 
 fn rec_type(d: &mut Draw) -> Shape {
@@ -246,12 +248,14 @@ fn rec_type(d: &mut Draw) -> Shape {
     let v = d.below_usize(ITEMS.len());
     let item = ITEMS[v];
     let user = *d.pick(&["", "    var _v: S;\n", "    var _v: T;\n", "    let _v: u32 = $bits(S);\n", "    var _v: T [2];\n    assign _v = '{0, 0};\n", "    let _v: S = 0 as S;\n"]);
-    let text = match d.weighted(&[4, 2, 1]) {
-        0 => format!("package P {{\n    type T = P::T;\n    struct S {{\n        a: P::S,\n    }}\n}}\nmodule M {{\n    {item}\n{user}}}\n"),
+    let w = d.weighted(&[4, 2, 1, 1]);
+    let text = match w {
+        0 => format!("module M {{\n    {item}\n{user}}}\n"),
         1 => format!("package P {{\n    {item}\n}}\nmodule M {{\n    import P::*;\n{user}}}\n"),
-        _ => format!("interface I {{\n    {item}\n{user}    modport mp {{\n        _v: input,\n    }}\n}}\nmodule M {{\n    inst i: I;\n}}\n"),
+        2 => format!("interface I {{\n    {item}\n{user}    modport mp {{\n        _v: input,\n    }}\n}}\nmodule M {{\n    inst i: I;\n}}\n"),
+        _ => format!("package P {{\n    type T = P::T;\n    struct S {{\n        a: P::S,\n    }}\n}}\nmodule M {{\n    {item}\n{user}}}\n"),
     };
-    Shape::new("rec_type", v, text)
+    Shape::new("rec_type", v * 8 + w, text)
 }
 
 fn rec_import(d: &mut Draw) -> Shape {
@@ -292,6 +296,8 @@ fn limits(d: &mut Draw, quick: bool) -> Shape {
     let sl = if quick { size_limit.min(4096) } else { size_limit };
     let n = limit_near(d, sl);
     let a = limit_near(d, array_limit);
+    // two-dimensional: a 256 x 256 array takes the post-pass-2 checks minutes (slow, not a crash)
+    let a2 = a.min(48);
     let text = match v {
         0 => format!("module M {{\n    var a: logic<32>;\n    always_comb {{\n        a = 0;\n        for i: u32 in 0..{n} {{\n            a = a + i;\n        }}\n    }}\n}}\n"),
         1 => format!("module M {{\n    for i in 0..{n} :g {{\n        let _x: logic = 1;\n    }}\n}}\n"),
@@ -307,7 +313,7 @@ fn limits(d: &mut Draw, quick: bool) -> Shape {
             let j = (sl / i).max(1);
             format!("module M {{\n    var a: logic<32>;\n    always_comb {{\n        a = 0;\n        for i: u32 in 0..{i} {{\n            for j: u32 in 0..{j} {{\n                a = a + i + j;\n            }}\n        }}\n    }}\n}}\n")
         }
-        7 => format!("module M {{\n    var a: logic [{a}, {a}];\n    assign a = '{{default: '{{default: 0}}}};\n    let _b: logic = a[{}][{}];\n}}\n", a.saturating_sub(1), a),
+        7 => format!("module M {{\n    var a: logic [{a2}, {a2}];\n    assign a = '{{default: '{{default: 0}}}};\n    let _b: logic = a[{}][{}];\n}}\n", a2.saturating_sub(1), a2),
         8 => format!("module M {{\n    let _a: logic<{n}> = '1;\n    let _b: logic<{n}> = _a + 1;\n    let _c: logic = _b[{}];\n}}\n", n.saturating_sub(1)),
         9 => format!("module M {{\n    var a: logic<4>;\n    always_comb {{\n        a = 0;\n        for i: u32 in 0..{n} step += 0 {{\n            a = 1;\n        }}\n    }}\n}}\n"),
         10 => format!("module M {{\n    var a: logic<4>;\n    always_comb {{\n        a = 0;\n        for i: i32 in rev 0..{} {{\n            a = a + 1;\n            if i == 1 {{\n                break;\n            }}\n        }}\n    }}\n}}\n", n.min(5000)),
